@@ -85,7 +85,7 @@ def Tfdf.unpack (raw : Bytes) (truncated : Bool) (exactLen : Nat) (ft : Option F
   | some f => if !verifyFrameType rules f then throw (.uslp .invalidConstructionRules)
   | none => pure ()
   if shouldHaveFhp rules truncated ft then
-    if raw.length < 3 then throw (.uslp .invalidLen)
+    if raw.length < 3 ∨ exactLen < 3 then throw (.uslp .invalidLen)
     let r1 ← liftPy (idx raw 1)
     let r2 ← liftPy (idx raw 2)
     pure ⟨rules, upid, some (r1 * 256 + r2), slice raw 3 exactLen⟩
